@@ -99,7 +99,7 @@ def run(ctx):
         "checks declared-once / declared-before-use / valid identifiers / known callees; hi and pkt are in scope only if the needs-hi / "
         "needs-pkt flag is set (sub-routine bodies: only if the prologue declares them); getter names of all bundled instructions via Meta.tla",
         select=lambda v: not v.startswith("own"), extra=extra_checks,
-        gen=(("Gen_C02.tla", 8), ("Gen_C05.tla", 2), ("Gen_C10.tla", 2), ("Gen_C07.tla", 1), ("Gen_C06.tla", 1)))
+        gen=(("Gen_C02.tla", 8), ("Gen_C05.tla", 2), ("Gen_C10.tla", 2), ("Gen_C07.tla", 1, "insn"), ("Gen_C06.tla", 1)))
 
 
 if __name__ == "__main__":
